@@ -323,6 +323,7 @@ type schedThread struct {
 	otherCnt     map[int]int
 	otherInit    map[int]string // Initialized / PendingInitializers of unheld tables as first seen through the txn
 	initFlips    []string
+	didMark      []int // tables whose initializer this transaction marked done
 }
 
 type specTable struct {
@@ -591,6 +592,9 @@ func (e *schedExec) threadBody(tid int) {
 				e.mu.Unlock()
 				if fn != nil {
 					fn(wtxn)
+					e.mu.Lock()
+					th.didMark = append(th.didMark, t)
+					e.mu.Unlock()
 				}
 			}
 		}
@@ -877,6 +881,11 @@ func (e *schedExec) Do(o *Out, f []string) string {
 				_, _, gw, _ := t.GetWatch(rtx, ctrIndex.Query("ctr"))
 				e.record(gw, "get", i, t.Revision(rtx), false)
 				ok, iw := t.Initialized(rtx)
+				if i < len(e.spec) && ok == e.spec[i].initPending {
+					o.Fail("C19", "initialized-is-not-the-committed-state", map[string]string{"reports_initialized": strconv.FormatBool(ok)},
+						fmt.Sprintf("table %d: Initialized(fresh snapshot)=%v pending=%v, but by the transactions committed so far the initializer is %s", i, ok, t.PendingInitializers(rtx),
+							map[bool]string{true: "registered and not yet marked done", false: "marked done in a committed transaction (or none was registered)"}[e.spec[i].initPending]))
+				}
 				b := "inited"
 				if !ok {
 					b = e.name(iw)
@@ -985,6 +994,18 @@ func (e *schedExec) onEvent(o *Out, tid int, th *schedThread, prev, label string
 				e.spec[t].rev++
 			}
 		}
+		e.mu.Lock()
+		for _, t := range th.reg {
+			if t < len(e.spec) {
+				e.spec[t].hasInit, e.spec[t].initPending = true, true
+			}
+		}
+		for _, t := range th.didMark {
+			if t < len(e.spec) {
+				e.spec[t].initPending = false
+			}
+		}
+		e.mu.Unlock()
 		th.specAtCommit = e.specString(len(e.spec))
 	case label == "register-stored":
 		e.spec = append(e.spec, specTable{})
